@@ -1,7 +1,7 @@
 (* C02 — embed: result = calling outer, which forwards *args/**kwargs to inner. *)
 From Sigtools.Model Require Import Base Bind Roles Algebra.
 From Sigtools.Model Require Import Universe.
-From Sigtools.Proofs Require Import SmallModel Basics Deciders SweepDefs SweepDefs2 Bounded2 MergeNeutral SweepDefs3 Bounded3.
+From Sigtools.Proofs Require Import SmallModel Basics Deciders SweepDefs SweepDefs2 Bounded2 MergeNeutral SweepDefs3 Bounded3 EmbedSound EmbedSoundAssoc.
 
 (* every result of embed went through the validating constructor *)
 Theorem C02_wf ss uva uvk r : embed ss uva uvk = Ok r -> validate (params r) = true.
@@ -82,3 +82,55 @@ Theorem C02_assoc_U1 a b c uva uvk :
   end.
 Proof. exact (embed_assoc_U1 a b c uva uvk). Qed.
 Print Assumptions C02_assoc_U1.
+
+(* ---- embed for ALL valid signatures (Proofs/EmbedSound*.v): soundness against the chain semantics, exactness
+   unless an outer default was cleared (side condition forced: refutation), the raise condition, a valid result,
+   associativity of the n-ary fold for any arity; the Err clause of associativity is refuted ---- *)
+Theorem C02_sound : forall (o i : sigT) (uva uvk : bool) (r : sigT) (c : call), valid_sig (params o) = true -> valid_sig (params i) = true -> embed [o; i] uva uvk = Ok r -> noncolliding c (params r) [params o; params i] = true -> accepts (params r) c = true -> chain (params o) (params i) uva uvk 0 [] c = true.
+Proof. exact @EmbedSound.C02_sound. Qed.
+Print Assumptions C02_sound.
+
+Theorem C02_exact : forall (o i : sigT) (uva uvk : bool) (r : sigT) (c : call), valid_sig (params o) = true -> valid_sig (params i) = true -> embed [o; i] uva uvk = Ok r -> has_default_pos (params o) = false -> noncolliding c (params r) [params o; params i] = true -> accepts (params r) c = chain (params o) (params i) uva uvk 0 [] c.
+Proof. exact @EmbedSound.C02_exact. Qed.
+Print Assumptions C02_exact.
+
+Theorem C02_exact_defaults_kept : forall (o i : sigT) (uva uvk : bool) (r : sigT) (c : call), valid_sig (params o) = true -> valid_sig (params i) = true -> embed [o; i] uva uvk = Ok r -> map has_def (firstn (length (positional (params o))) (positional (params r))) = map has_def (positional (params o)) -> noncolliding c (params r) [params o; params i] = true -> accepts (params r) c = chain (params o) (params i) uva uvk 0 [] c.
+Proof. exact @EmbedSound.C02_exact_defaults_kept. Qed.
+Print Assumptions C02_exact_defaults_kept.
+
+Theorem C02_exact_needs_side_condition : let o := {| params := [{| pname := 1; pkind := PK; pdef := Some 1; pann := None; puann := UEmpty |}; {| pname := 9; pkind := VP; pdef := None; pann := None; puann := UEmpty |}; {| pname := 10; pkind := VK; pdef := None; pann := None; puann := UEmpty |}]; ret := None; uret := UEmpty; srcs := []; deps := [] |} in let i := {| params := [{| pname := 3; pkind := PK; pdef := None; pann := None; puann := UEmpty |}]; ret := None; uret := UEmpty; srcs := []; deps := [] |} in let c := {| npos := 0; kws := [3] |} in valid_sig (params o) = true /\ valid_sig (params i) = true /\ (exists r : sigT, embed [o; i] true true = Ok r /\ params r = [{| pname := 1; pkind := PK; pdef := None; pann := None; puann := UEmpty |}; {| pname := 3; pkind := PK; pdef := None; pann := None; puann := UEmpty |}] /\ noncolliding c (params r) [params o; params i] = true /\ accepts (params r) c = false /\ chain (params o) (params i) true true 0 [] c = true).
+Proof. exact @EmbedSound.C02_exact_needs_side_condition. Qed.
+Print Assumptions C02_exact_needs_side_condition.
+
+Theorem C02_raises : forall (o i : sigT) (uva uvk : bool), valid_sig (params o) = true -> valid_sig (params i) = true -> embed [o; i] uva uvk = Err Incompatible -> existsb (fun p : param => is_named p && mem (pname p) (names_of (filter is_named (params i)))) (params o) = true \/ (forall c : call, chain (params o) (params i) uva uvk 0 [] c = false).
+Proof. exact @EmbedSound.C02_raises. Qed.
+Print Assumptions C02_raises.
+
+Theorem C02_embed_chain : forall (o i : list param) (uva uvk : bool), valid_sig o = true -> valid_sig i = true -> match embed [{| params := o; ret := None; uret := UEmpty; srcs := []; deps := [] |}; {| params := i; ret := None; uret := UEmpty; srcs := []; deps := [] |}] uva uvk with | Ok r => (forall c : call, noncolliding c (params r) [o; i] = true -> accepts (params r) c = true -> chain o i uva uvk 0 [] c = true) /\ (has_default_pos o = false -> forall c : call, noncolliding c (params r) [o; i] = true -> accepts (params r) c = chain o i uva uvk 0 [] c) | Err Incompatible => existsb (fun p : param => is_named p && mem (pname p) (names_of (filter is_named i))) o = true \/ (forall c : call, chain o i uva uvk 0 [] c = false) | _ => True end.
+Proof. exact @EmbedSound.C02_embed_chain. Qed.
+Print Assumptions C02_embed_chain.
+
+Theorem C02_embed2_valid : forall (a b : sigT) (uva uvk : bool) (ab : sigT), valid_sig (params b) = true -> embed [a; b] uva uvk = Ok ab -> valid_sig (params ab) = true.
+Proof. exact @EmbedSoundAssoc.embed2_valid. Qed.
+Print Assumptions C02_embed2_valid.
+
+Theorem C02_assoc : forall (a b : sigT) (rest : list sigT) (uva uvk : bool) (ab : sigT), valid_sig (params b) = true -> embed [a; b] uva uvk = Ok ab -> same_sig (embed (a :: b :: rest) uva uvk) (embed (ab :: rest) uva uvk).
+Proof. exact @EmbedSoundAssoc.C02_assoc. Qed.
+Print Assumptions C02_assoc.
+
+Theorem C02_assoc3 : forall (a b c : sigT) (uva uvk : bool) (ab : sigT), valid_sig (params b) = true -> embed [a; b] uva uvk = Ok ab -> same_sig (embed [a; b; c] uva uvk) (embed [ab; c] uva uvk).
+Proof. exact @EmbedSoundAssoc.C02_assoc3. Qed.
+Print Assumptions C02_assoc3.
+
+Theorem C02_assoc_incompatible : forall (a b : sigT) (rest : list sigT) (uva uvk : bool), embed [a; b] uva uvk = Err Incompatible -> embed (a :: b :: rest) uva uvk = Err Incompatible.
+Proof. exact @EmbedSoundAssoc.C02_assoc_incompatible. Qed.
+Print Assumptions C02_assoc_incompatible.
+
+Theorem C02_assoc_error_clause_refuted : exists a b c : sigT, valid_sig (params a) = true /\ valid_sig (params b) = true /\ valid_sig (params c) = true /\ embed [a; b] true true = Err ValueErr /\ (exists r : sigT, embed [a; b; c] true true = Ok r).
+Proof. exact @EmbedSoundAssoc.C02_assoc_error_clause_refuted. Qed.
+Print Assumptions C02_assoc_error_clause_refuted.
+
+Theorem C02_sound3_partial : forall (a b c : sigT) (uva uvk : bool) (ab r : sigT) (c0 : call), valid_sig (params a) = true -> valid_sig (params b) = true -> valid_sig (params c) = true -> embed [a; b] uva uvk = Ok ab -> embed [a; b; c] uva uvk = Ok r -> noncolliding c0 (params r) [params ab; params c] = true -> noncolliding c0 (params ab) [params a; params b] = true -> accepts (params r) c0 = true -> chain (params ab) (params c) uva uvk 0 [] c0 = true /\ chain (params a) (params b) uva uvk 0 [] c0 = true.
+Proof. exact @EmbedSoundAssoc.C02_sound3_partial. Qed.
+Print Assumptions C02_sound3_partial.
+
